@@ -1,5 +1,48 @@
 import ctypes
+import math
+import re
 from .cell import CellType
+
+
+_NUMBER_RE = re.compile(
+    r'[+-]?([0-9]+([.][0-9]*)?|[.][0-9]+)([eEdD][+-]?[0-9]+)?')
+
+
+def parse_number(text, prefix=False):
+    """Parse a decimal numeral the way READ, INPUT and VAL do.
+
+    Surrounding blanks are ignored and both E and D exponents are
+    accepted. Returns an int for plain integers, a float otherwise, and
+    None if the text is not a numeral (or, with prefix=True, does not
+    start with one). Values too large for a DOUBLE are returned as
+    infinity.
+    """
+    text = text.strip(' \t')
+    if prefix:
+        match = _NUMBER_RE.match(text)
+    else:
+        match = _NUMBER_RE.fullmatch(text)
+    if match is None:
+        return None
+    numeral = match.group(0)
+    if re.fullmatch(r'[+-]?[0-9]+', numeral):
+        return int(numeral)
+    return float(numeral.replace('d', 'e').replace('D', 'e'))
+
+
+def number_fits(value, cell_type):
+    """Can the given parsed number be stored in a cell of this type
+    (after rounding, for integral types)?"""
+    if isinstance(value, float) and \
+       (math.isinf(value) or math.isnan(value)):
+        return False
+    if cell_type == CellType.INTEGER:
+        return -32768 <= round(value) <= 32767
+    if cell_type == CellType.LONG:
+        return -2**31 <= round(value) < 2**31
+    if cell_type == CellType.SINGLE:
+        return abs(value) <= 3.4028235677973366e+38
+    return True
 
 
 def format_number(n, n_type):
